@@ -147,6 +147,47 @@ def _bounds(ctx: Ctx) -> None:
              "trivial_bounds(distances, flows)")
     env: dict[str, Arr] = {"distances": Arr("D", "any", 0),
                            "flows": Arr("F", "any", 1)}
+    # ---- every scratch buffer has one cell per matrix entry (n * n)
+    from sa.kern import make_evaluator, py_calls
+    from sa.symterm import Env as _Env, Poly as _Poly, Unsupported as _Uns
+    sev = make_evaluator(repo, tb, extra_call=py_calls)
+    sev.int_transparent = True
+    senv = _Env()
+    senv.vars["distances"] = ("array", "distances")
+    senv.vars["flows"] = ("array", "flows")
+    nlen = _Poly.atom(("app", "len", (_Poly.var("distances"),)))
+    nflen = _Poly.atom(("app", "len", (_Poly.var("flows"),)))
+    sizes_bad: list[str] = []
+    n_alloc = 0
+    for st in func_body(tb):
+        if isinstance(st, (ast.Assign, ast.AnnAssign, ast.AugAssign)):
+            v = st.value
+            if isinstance(v, ast.Call) and isinstance(
+                    v.func, ast.Attribute) and v.func.attr in (
+                    "empty", "zeros") and v.args:
+                n_alloc += 1
+                try:
+                    sz = sev.num(senv, v.args[0])
+                    if sz not in (nlen * nlen, nflen * nflen,
+                                  nlen * nflen):
+                        sizes_bad.append(
+                            f"`{ast.unparse(st)[:60]}` has "
+                            f"{_sh_poly(sz)} cells")
+                except _Uns:
+                    sizes_bad.append(f"`{ast.unparse(st)[:60]}`: size not "
+                                     "normalised")
+                continue
+            tg = st.targets[0] if isinstance(st, ast.Assign) else st.target
+            if isinstance(tg, ast.Name):
+                try:
+                    senv = sev.stmt(senv, st)
+                except _Uns:
+                    pass
+    ctx.ob("D9.3", tb, tb.node, not sizes_bad and n_alloc >= 1,
+           f"all {n_alloc} scratch buffers hold n*n cells (one per matrix "
+           "entry)" if not sizes_bad else
+           "a scratch buffer cannot hold the flattened matrix: "
+           + "; ".join(sizes_bad), construct="scratch buffer sizes")
     nxt = [2]
     problems: list[tuple[ast.AST, str]] = []
     results: list[tuple[str, str] | None] = []
@@ -463,3 +504,8 @@ def _parser(ctx: Ctx) -> None:
     ctx.ob("D9.4", fq, fq.node, checks >= 3,
            f"{checks} raising `!=` checks on counts/state after parsing",
            construct="count checks", nontrivial=False)
+
+
+def _sh_poly(p: Any) -> str:
+    from sa.symterm import Poly, show
+    return show(p) if isinstance(p, Poly) else str(p)
